@@ -74,8 +74,23 @@ func concretiseTable(t tableCand) string {
 	}
 	// delimiter
 	var dc []string
-	for _, a := range t.Aligns {
-		dc = append(dc, map[string]string{"none": "---", "left": ":--", "right": "--:", "center": ":-:"}[a])
+	for j, a := range t.Aligns {
+		x := map[string]string{"none": "---", "left": ":--", "right": "--:", "center": ":-:"}[a]
+		// white space around a delimiter cell (spaces and tabs) does not belong to it: rotate
+		// the padding form over columns and candidates
+		switch (j + len(t.Rows) + t.H) % 4 {
+		case 1:
+			x = " " + x + "  "
+		case 2:
+			x = x + "\t"
+		case 3:
+			if j > 0 { // a tab at the start of the line would make it indented, not a delimiter row
+				x = "\t" + x
+			} else {
+				x = x + " \t"
+			}
+		}
+		dc = append(dc, x)
 	}
 	lines = append(lines, edged(dc, t.Edge, d == 1))
 	// body
